@@ -35,6 +35,9 @@ Fixpoint val_same (a b : pyval) {struct a} : bool :=
   | VRow (Some f) x, VRow (Some g) y => val_same f g && all2 x y
   | VSlice a1 a2, VSlice b1 b2 => opt_eqb Z.eqb a1 b1 && opt_eqb Z.eqb a2 b2
   | VFunc x, VFunc y => String.eqb x y
+  | VType n x, VType m y => String.eqb n m && all2 x y
+  | VField n x, VField m y => String.eqb n m && val_same x y
+  | VDF sx x, VDF sy y => val_same sx sy && all2 x y
   | _, _ => false
   end.
 
